@@ -114,6 +114,17 @@ def execStep (st : ExecDrvSt) (op : String) (a : KV) : ExecDrvSt × String :=
     -- file afterwards does not matter because the call is over
     let o := safeCmdExecution .resolved (.ok { uid := 0, gid := 0, mode := 0o755 }) .startError 2000
     (exCount st o.ran, s!"run={exFmtRun o.res} marker={exB01 o.ran}")
+  | "ex.busyhold" =>
+    -- held open for writing beyond the timeout: the start fails at once (an error, nothing executed); once the writer is
+    -- gone the same command runs
+    let o := safeCmdExecution .resolved (.ok { uid := 0, gid := 0, mode := 0o755 }) .startError ((a.str "timeout_ms" "300").toNat!)
+    let o2 := safeCmdExecution .resolved (.ok { uid := 0, gid := 0, mode := 0o755 }) (.exits 0 "7\n") 2000
+    (st, s!"run={exFmtRun o.res} late=0 after={exFmtRun o2.res}")
+  | "ex.queue" =>
+    -- two overlapping calls on one executable, both started while the file is root-controlled: each checks and starts on
+    -- its own; the later replacement of the file reaches neither of them
+    let o := safeCmdExecution .resolved (.ok { uid := 0, gid := 0, mode := 0o755 }) (.exits 0 "7\n") 3000
+    (exCount st false, s!"a={exFmtRun o.res} b={exFmtRun o.res} marker=0")
   | "ex.dangling" =>
     let chk := checkPerm .err .notExist
     let o := safeCmdExecution .err .notExist (.exits 0 "7\n") 2000
